@@ -412,14 +412,22 @@ func checkLit(r *core.Run, ctx *cue.Context, c kase) {
 	}
 	r.Outcome("lit:valid")
 	if m.Frac {
-		// spec: "the result is truncated towards zero if it is not an integer"
-		if perr == nil {
-			var d literal.NumInfo
-			_ = d
-		}
+		// spec: "When multiplying a fraction by a multiplier, the result is
+		// truncated towards zero if it is not an integer."
 		r.Outcome("lit:si-fraction")
 		if perr != nil {
 			r.Violation("literal: fractional SI literal rejected (spec: truncated towards zero): "+siClass(s), c, fmt.Sprintf("%s: %v; spec value %s", s, perr, m.Value.RatString()))
+			return
+		}
+		// accepted: then it denotes the truncated product, as an int
+		if signed {
+			return
+		}
+		trunc := new(big.Rat).SetInt(new(big.Int).Quo(m.Value.Num(), m.Value.Denom()))
+		v := ctx.CompileString(s)
+		kind, got, ok := numOf(v)
+		if !ok || kind != "int" || got.Cmp(trunc) != 0 {
+			r.Violation("literal: accepted fractional SI literal does not denote the truncated product: "+s, c, fmt.Sprintf("got %s %v (err %v), exact product %s, spec value %s", kind, v, v.Err(), m.Value.RatString(), trunc.RatString()))
 		}
 		return
 	}
